@@ -1178,11 +1178,14 @@ class SetCore:
         x = rng.choice(list(S.entries.values()))
         o = x.obj
         d = len(o.N)
-        k = rng.randint(0, d - 1) if rng.random() < 0.9 else rng.choice([-1, d])
+        k = rng.randint(0, d - 1) if rng.random() < 0.85 else rng.choice([-1, d, rng.randint(-d, -1), rng.randint(-d, -1)])
         return [x.sid], {'k': k, 'n': rng.randint(1, 4), 'm': rng.randint(1, 4), 'keep': rng.random() < 0.4,
                          'badrank': rng.random() < 0.1, 'vseed': rng.getrandbits(31),
                          # a core of a kind that is rejected only late (numpy array, wrong dtype, wrong number of dims)
-                         'bad_kind': rng.choice([None] * 8 + ['numpy', 'list', 'ndim'])}
+                         'bad_kind': rng.choice([None] * 8 + ['numpy', 'list', 'ndim']),
+                         # for a negative index: ranks taken from the rank list at the *literal* negative positions
+                         # (R has one entry more than there are cores, so R[k] is then the pair of the next position)
+                         'neg_literal': rng.random() < 0.5}
 
     @staticmethod
     def run(S, objs, p):
@@ -1191,6 +1194,12 @@ class SetCore:
         kk = min(max(k, 0), len(x.cores) - 1)
         c = x.cores[kk]
         r0, r1 = int(c.shape[0]) + (1 if p['badrank'] else 0), int(c.shape[-1])
+        if k < 0 and -k <= len(x.cores):
+            R = gen.ints(x.R)
+            if p.get('neg_literal'):
+                r0, r1 = R[k], R[k + 1]
+            else:
+                r0, r1 = R[len(x.cores) + k], R[len(x.cores) + k + 1]
         g = gen.vgen(p['vseed'])
         if x.is_ttm:
             m, n = (int(c.shape[1]), int(c.shape[2])) if p['keep'] else (p['m'], p['n'])
